@@ -150,7 +150,7 @@ def own(ctx, o, eff):
                     (match(f"{key.id}.startswith('_')", t) and not p) or (match(f"not {key.id}.startswith('_')", t) and p) for t, p in conds)
                 recv_super = isinstance(w.node, ast.Call) and isinstance(w.node.func, ast.Attribute) and \
                     isinstance(w.node.func.value, ast.Call) and getattr(w.node.func.value.func, 'id', '') == 'super'
-                if okc or recv_super or f.name == '__init__' or w.root == 'fresh':
+                if okc or recv_super or f.name == '__init__' or w.root == 'fresh' or _only_init_or_fresh(ctx, eff, f, w):
                     o.site(f, w.node, "dynamic attribute store limited to public names / own private state")
                 else:
                     o.refute(f, w.node, w.node, "attribute store with a computed name that may denote a private relation field")
@@ -160,6 +160,33 @@ def own(ctx, o, eff):
             o.refute(t.methods[bad], t.methods[bad].node, bad, f"Task defines {bad}: membership tests in the guards no longer compare task objects")
     if not any(b in t.methods for b in ('__eq__', '__hash__')):
         o.site(None, None, "task.py Task: no __eq__/__hash__")
+
+
+def _only_init_or_fresh(ctx, eff, f, w) -> bool:
+    """the dynamic store sits in a private helper on its own receiver, and every call of that helper comes from a constructor on its
+    own `self` or goes to a freshly created object (the two contexts in which the unchanged code does the same store)"""
+    if not (f.name.startswith('_') and f.self_name and w.root == 'self'):
+        return False
+    sites = []
+    for g in ctx.prog.all_funcs():
+        for ci in ctx.cg.calls_in(g):
+            if ci.kind == 'call' and any(t is f for t in ci.targets):
+                sites.append((g, ci.node))
+    if not sites:
+        return False
+    for g, c in sites:
+        recv = c.func.value if isinstance(c, ast.Call) and isinstance(c.func, ast.Attribute) else None
+        if recv is None:
+            return False
+        if g.name == '__init__' and isinstance(recv, ast.Name) and recv.id == g.self_name:
+            continue
+        try:
+            if eff.root_of(recv, g, cfg_of(g).node_containing(c)) == 'fresh':
+                continue
+        except Exception:
+            pass
+        return False
+    return True
 
 
 REQ = {
@@ -699,12 +726,32 @@ def _walk_form(ctx, f, raw, pub):
                 continue
             v = lp.target.id
             body = [s for s in lp.body if not (isinstance(s, ast.Expr) and isinstance(s.value, ast.Constant))]
+
+            def skips_empty(test):
+                return any(match(pat, test) for pat in (f"{v}.{raw}", f"{v}.{pub}", f"len({v}.{raw}) > 0", f"len({v}.{pub}) > 0",
+                                                        f"len({v}.{raw})", f"len({v}.{pub})"))
+            # `if v.<rel>: yield from rec(v)` only skips an empty list: same as the unconditional step
+            body = [(s.body[0] if isinstance(s, ast.If) and skips_empty(s.test) and len(s.body) == 1 and not s.orelse else s) for s in body]
+            for st in body:
+                if isinstance(st, ast.If) and any(isinstance(n, ast.Yield) and isinstance(n.value, ast.Name) and n.value.id == v
+                                                  for n in ast.walk(st)):
+                    return ('bad', g, st, st, f"{what} leaves out the elements for which `{src(st.test)[:60]}` fails: the closure is filtered, "
+                                              f"the guards that rely on it miss those tasks")
             y = [i for i, s in enumerate(body) if isinstance(s, ast.Expr) and isinstance(s.value, ast.Yield) and
                  isinstance(s.value.value, ast.Name) and s.value.value.id == v]
             r = [i for i, s in enumerate(body) if isinstance(s, ast.Expr) and isinstance(s.value, ast.YieldFrom) and
                  isinstance(s.value.value, ast.Call) and is_rec(s.value.value, v)]
             if y and r and y[0] > r[0]:
                 return ('bad', g, lp, lp, "descendants are yielded before the task itself (not pre-order)")
+            # the recursive step under a condition: the closure is cut where the condition fails (unless it only skips empty lists)
+            for st in body:
+                if isinstance(st, ast.If):
+                    inner = [n for n in ast.walk(st) if isinstance(n, ast.YieldFrom) and isinstance(n.value, ast.Call) and is_rec(n.value, v)]
+                    harmless = any(match(pat, st.test) for pat in (f"{v}.{raw}", f"{v}.{pub}", f"len({v}.{raw}) > 0", f"len({v}.{pub}) > 0",
+                                                                   f"len({v}.{raw})", f"len({v}.{pub})"))
+                    if inner and y and not harmless and not any(x is inner[0] for b in st.orelse for x in ast.walk(b)):
+                        return ('bad', g, st, st, f"{what} only walks on from an element when `{src(st.test)[:60]}`: the transitive closure is cut "
+                                                  f"there, and the guards that rely on it (cycle / ancestor checks) miss everything beyond")
             if y and not rec_calls:
                 return ('bad', g, g.node, f.qual, f"{what} does not walk t.{unmangle(raw)} transitively (yield element, then recurse): only the "
                                                   f"direct elements are returned")
@@ -773,12 +820,28 @@ def closure(ctx, o):
     g = next((x for x in prog.all_funcs() if x.parent is f), None)
     s = f.self_name
     done = False
+    ext_start = False
+    if g is None:
+        # the walker as a module function / static method called with the task's parent
+        for ci in ctx.cg.calls_in(f):
+            c = ci.node
+            if ci.kind == 'call' and isinstance(c, ast.Call) and len(c.args) == 1 and \
+                    (match(f"{s}._Task__parent", c.args[0]) or match(f"{s}.parent", c.args[0])):
+                for t in ci.targets:
+                    if t is not None and t is not f and t.kind in ('function', 'static') and len(t.params) == 1 and g is None:
+                        g, ext_start = t, True
     if g is not None and g.params:
         p = g.params[0]
-        rec = any(match(f"{g.name}({p}.parent)", n) or match(f"{g.name}({p}._Task__parent)", n) for n in ast.walk(g.node))
-        any_rec = any(isinstance(n, ast.Call) and isinstance(n.func, ast.Name) and n.func.id == g.name for n in ast.walk(g.node))
+
+        def calls_g(n, arg_pats):
+            if not (isinstance(n, ast.Call) and len(n.args) == 1):
+                return False
+            nm = n.func.id if isinstance(n.func, ast.Name) else (unmangle(n.func.attr) if isinstance(n.func, ast.Attribute) else None)
+            return nm == unmangle(g.name) and (arg_pats is None or any(match(a, n.args[0]) for a in arg_pats))
+        rec = any(calls_g(n, (f"{p}.parent", f"{p}._Task__parent")) for n in ast.walk(g.node))
+        any_rec = any(calls_g(n, None) for n in ast.walk(g.node))
         yld = any(isinstance(n, ast.Yield) and isinstance(n.value, ast.Name) and n.value.id == p for n in ast.walk(g.node))
-        start = any(match(f"{g.name}({s}._Task__parent)", n) or match(f"{g.name}({s}.parent)", n) for n in ast.walk(f.node))
+        start = ext_start or any(calls_g(n, (f"{s}._Task__parent", f"{s}.parent")) for n in ast.walk(f.node))
         if rec and yld and start:
             o.site(g, g.node, "yield t; recurse on t.parent, starting at the task's parent")
             done = True
